@@ -39,7 +39,7 @@ NamesS == { cur.names_str[i] : i \in DOMAIN cur.names_str }
 TItems == { i \in DOMAIN items : items[i].mod = "" /\ items[i].name = "T" /\ items[i].kind \in {"struct", "enum"} }
 Wires(seq) == { seq[j].wire : j \in DOMAIN seq }
 WireOK ==
-    CASE cur.ctx = "prop" -> \E i \in TItems : items[i].kind = "struct" /\ Wires(items[i].fields) = NamesS
+    CASE cur.ctx \in {"prop", "prop-opt", "prop-optmap", "prop-optanymap", "prop-optvec", "prop-dflt"} -> \E i \in TItems : items[i].kind = "struct" /\ Wires(items[i].fields) = NamesS
                                                /\ Len(items[i].fields) = Cardinality(NamesS)
       [] cur.ctx \in {"enum", "var-int", "var-tuple1", "var-tuple2", "var-struct"} -> \E i \in TItems : items[i].kind = "enum" /\ Wires(items[i].variants) = NamesS
                                                /\ Len(items[i].variants) = Cardinality(NamesS)
@@ -61,8 +61,9 @@ Diag ==
    the struct's fields / items and the context is prop or def. *)
 Known(d) ==
     { k \in {"C08-colliding-names-accepted"} :
-        /\ d = "C08/IdentifiersNotDistinct" /\ Len(cur.names) = 2 /\ cur.ctx \in {"prop", "def"}
-        /\ (cur.ctx = "prop" => DupFields(items) # {} /\ DupItems(items) = {})
+        /\ d = "C08/IdentifiersNotDistinct" /\ Len(cur.names) = 2
+        /\ cur.ctx \in {"prop", "def", "prop-opt", "prop-optmap", "prop-optanymap", "prop-optvec", "prop-dflt"}
+        /\ (cur.ctx # "def" => DupFields(items) # {} /\ DupItems(items) = {})
         /\ (cur.ctx = "def" => DupItems(items) # {}) }
 
 End == /\ IsEvent("endcase")
